@@ -27,10 +27,11 @@ def run(ctx):
     only = os.environ.get('C16_ONLY', '').split(',') if os.environ.get('C16_ONLY') else None
     want = lambda m: only is None or m in only
     s = ctx.seed * 100000
-    n_rnd = 1500 if quick else 40000        # trees per shard
-    n_bs = 60 if quick else 2500            # block cases per shard (each: 1-5 signed blocks of up to 40 leaves)
-    n_carry = 40 if quick else 4000         # scenarios per process
-    n_leak = 20 if quick else 1000
+    n_rnd = 2000 if quick else 200000       # trees per shard (about 1000 trees/s per process under ASan)
+    n_bs = 80 if quick else 6000           # block cases per shard (each: 2-5 signed blocks of up to 40 leaves; about 25 cases/s)
+    n_carry = 60 if quick else 20000        # scenarios per process
+    n_leak = 20 if quick else 2000
+    n_exh = 64 if quick else 128            # exhaustive leaf counts 1..n_exh
     ctx.rule = ('tree builder: EXHAUSTIVE leaf counts 1..64 x uniform level {0,1,7} x maxTreeLevel {off,1..12,250..255} (+ other hash '
                 'algorithms, metadata at every third position, a one-sibling leaf processor), every accepted leaf\'s chain folded; random trees of '
                 '1..300 leaves with 9 level profiles over 0..255 incl. invalid levels, metadata leaves at random positions, maxTreeLevel from '
@@ -47,15 +48,17 @@ def run(ctx):
                        'unjustified refusals (leaf refused although it fits) are counted, not flagged: the statement does not forbid them',
                        'a failing close / refusal that only leaks memory is recorded as an observation, not as a violation (C16 forbids corruption)',
                        'ASan+UBSan build of the library']
-    ctx.exhaustive = False
     fin = need = 0
     if want('exh'):
         need += SHARDS
-        fin += ctx.run_shards(exe, [['exh', i, SHARDS, 64] for i in range(SHARDS)])
-        ctx.exhaustive = True       # the uniform-level sub-space is enumerated completely (the rest is sampled)
+        fin += ctx.run_shards(exe, [['exh', i, SHARDS, n_exh] for i in range(SHARDS)])
+        del ctx.samples[2:]         # keep room for samples of the other workloads
+        ctx.extra['exhaustive_subspace'] = ('leaf counts 1..%d x uniform level {0,1,7} x maxTreeLevel {off,1..12,250..255}: every tree, every leaf '
+                                            '(the other workloads are sampled)' % n_exh)
     if want('rnd'):
         need += SHARDS
         fin += ctx.run_shards(exe, [['rnd', s + i, n_rnd] for i in range(SHARDS)])
+        del ctx.samples[5:]
     if want('bs'):
         need += SHARDS
         fin += ctx.run_shards(exe, [['bs', s + 500 + i, n_bs] for i in range(SHARDS)])
@@ -102,3 +105,29 @@ def run(ctx):
     ctx.require(c.get('reset_equals_fresh', 0) > 200 and c.get('mask_links_ok', 0) > 2000 and c.get('metadata_links_ok', 0) > 2000,
                 'reset-vs-fresh comparisons, mask and metadata links')
     ctx.require(c.get('skipped_out_of_domain', 0) * 20 < ctx.evaluations, 'few skipped cases')
+
+
+def replay(ctx, path):
+    """Re-run the case of a replay file: a tree spec (tree builder) or the arguments of a block signer case."""
+    import re
+    exe = ctx.driver('c16_tree', ['c16_tree.c'], wraps=['KSI_Signature_signAggregatedWithPolicy'])
+    txt = open(path, errors='replace').read()
+    m = re.search(r'(a\d+,x-?\d+,p\d+,s\d+:[hm0-9,\-]+)', txt)
+    if m:
+        args = ['tree', m.group(1)]
+    else:
+        m = re.search(r'block (\d+) (\d+) (\S+) (\d+) (\d+) (\S+)', txt)
+        if not m:
+            print(txt)
+            return
+        args = ['block'] + list(m.groups())
+    print('replaying: c16_tree ' + ' '.join(args))
+    prefix = ''
+    try:
+        key = [l[4:] for l in open(path + '.what').read().splitlines() if l.startswith('key=')][0]
+        m = re.search(r'^(.*?)(asan:|ubsan:|lsan:|signal:)', key)
+        prefix = m.group(1) if m else ''
+    except (OSError, IndexError):
+        pass
+    fin, out = ctx.run_driver(exe, args, crash_key_prefix=prefix)
+    print(out)
